@@ -163,6 +163,10 @@ func tokens() []token {
 		listTok(`a2{s2"ab"s2"cd"}`, sD("ab"), sD("cd")),
 		listTok("a2{a1{1}a{}}", &eqv.D{K: eqv.KList, List: []*eqv.D{iD(1)}}, &eqv.D{K: eqv.KList, List: []*eqv.D{}}),
 		listTok("a4{i300;i-1;l5000000000;1}", iD(300), iD(-1), iD(5000000000), iD(1)),
+		listTok("a3{a3{123}a2{78}a1{9}}", &eqv.D{K: eqv.KList, List: []*eqv.D{iD(1), iD(2), iD(3)}}, &eqv.D{K: eqv.KList, List: []*eqv.D{iD(7), iD(8)}}, &eqv.D{K: eqv.KList, List: []*eqv.D{iD(9)}}),
+		listTok(`a3{a2{s2"ab"s2"cd"}a1{s2"ef"}a{}}`, &eqv.D{K: eqv.KList, List: []*eqv.D{sD("ab"), sD("cd")}}, &eqv.D{K: eqv.KList, List: []*eqv.D{sD("ef")}}, &eqv.D{K: eqv.KList, List: []*eqv.D{}}),
+		listTok(`a2{m2{s1"a"1s1"b"2}m1{s1"c"3}}`, &eqv.D{K: eqv.KMap, Keys: []*eqv.D{sD("a"), sD("b")}, Vals: []*eqv.D{iD(1), iD(2)}}, &eqv.D{K: eqv.KMap, Keys: []*eqv.D{sD("c")}, Vals: []*eqv.D{iD(3)}}),
+		listTok("a2{a2{12}a2{34}}", &eqv.D{K: eqv.KList, List: []*eqv.D{iD(1), iD(2)}}, &eqv.D{K: eqv.KList, List: []*eqv.D{iD(3), iD(4)}}),
 		listTok("a2{tf}", &eqv.D{K: eqv.KBool, B: true}, &eqv.D{K: eqv.KBool, B: false}),
 		listTok("a3{i97;i98;i99;}", iD(97), iD(98), iD(99)),
 	)
